@@ -125,4 +125,6 @@ def check_c20(prop_id, tier, seed):
     return ec.finish(prop_id, tier, seed, t0, verdict, events, stats, configs=cfgs, level="fault_enumeration",
                      rule="one scenario = one saved database (three rows of extreme value classes, two indexes) and up to 60 damaged "
                           "copies of its file, each loaded in a child process; counted per format / fault kind / outcome below",
-                     extra_cov={"faults_generated": len(scen), "outcomes_by_format_fault": outcomes})
+                     extra_cov={"faults_generated": len(scen), "outcomes_by_format_fault": outcomes,
+                                # non-trivial here = a scenario in which at least one damaged copy was actually loaded
+                                "distinct_nontrivial": len(merged) if outcomes else 0})
